@@ -134,14 +134,23 @@ def classify_pairs(sc: IndexScope, comp: ast.ListComp, rule_enum: str, obs: List
             obs.append(violation(rule_enum, t, f.loc(comp), key=f"{fn}::pairs::filter::{ast.unparse(c)}",
                                  detail=f"filter `{ast.unparse(c)}` does not select each unordered pair once"))
             return TID, TID
-    if not (isinstance(g1.target, ast.Name) and isinstance(g2.target, ast.Name)) or g1.ifs or g2.ifs:
+    enum_first = isinstance(g1.target, ast.Tuple) and len(g1.target.elts) == 2 and all(isinstance(e, ast.Name) for e in g1.target.elts) \
+        and isinstance(g1.iter, ast.Call) and isinstance(g1.iter.func, ast.Name) and g1.iter.func.id == 'enumerate' \
+        and len(g1.iter.args) == 1 and isinstance(g1.iter.args[0], ast.Name) and g1.iter.args[0].id == sc.idx and not g1.iter.keywords
+    if not ((isinstance(g1.target, ast.Name) or enum_first) and isinstance(g2.target, ast.Name)) or g1.ifs or g2.ifs:
         obs.append(inconclusive(rule_enum, f"{f.name}: pair comprehension has two plain generators", f.loc(comp), construct=fn))
         return None
-    a, b = g1.target.id, g2.target.id
     kinds: Dict[str, str] = {}
+    if enum_first:
+        # `for k, i in enumerate(idx)`: k is the position, i the train id at that position
+        a, b = g1.target.elts[0].id, g2.target.id
+        kinds[a] = POS
+        kinds[g1.target.elts[1].id] = TID
+    else:
+        a, b = g1.target.id, g2.target.id
     # generator 1: for a in range(len(idx)) | range(len(idx)-1)
     it1 = g1.iter
-    okg1 = False
+    okg1 = enum_first
     if isinstance(it1, ast.Call) and isinstance(it1.func, ast.Name) and it1.func.id in ('range', 'xrange') and len(it1.args) == 1:
         e = it1.args[0]
         if _is_len_of(e, sc.idx):
@@ -559,9 +568,13 @@ def r06_4_matrix_fills(ctx, rule: str = 'R06.4') -> List[Ob]:
                 continue
             stores = []
             for st in loop.body:
-                if isinstance(st, ast.Assign) and isinstance(st.targets[0], ast.Subscript) and \
-                        isinstance(st.targets[0].slice, ast.Tuple) and len(st.targets[0].slice.elts) == 2:
-                    stores.append(st)
+                if isinstance(st, ast.Assign) and all(isinstance(tg_, ast.Subscript) and isinstance(tg_.slice, ast.Tuple)
+                                                      and len(tg_.slice.elts) == 2 for tg_ in st.targets):
+                    # (a chained store `m[i, j] = m[j, i] = v` is two stores of one value)
+                    for tg_ in st.targets:
+                        one = ast.Assign(targets=[tg_], value=st.value)
+                        ast.copy_location(one, st)
+                        stores.append(one)
             if len(stores) < 1:
                 continue
             fn = _fn(f)
@@ -586,7 +599,7 @@ def r06_4_matrix_fills(ctx, rule: str = 'R06.4') -> List[Ob]:
                 obs.append(ok(rule, t, f.loc(stores[0]), construct=f"{fn}::{mname}::mirror"))
                 v0 = vals[ij.index(f"({a}, {b})")]
                 v1 = vals[ij.index(f"({b}, {a})")]
-                sym = isinstance(v0, ast.Name) and isinstance(v1, ast.Name) and v0.id == v1.id
+                sym = (isinstance(v0, ast.Name) and isinstance(v1, ast.Name) and v0.id == v1.id) or v0 is v1
                 anti = isinstance(v0, ast.Name) and isinstance(v1, ast.UnaryOp) and isinstance(v1.op, ast.USub) and \
                     isinstance(v1.operand, ast.Name) and v1.operand.id == v0.id
                 t2 = f"{f.name}: the mirrored entry is the same value (symmetric) or its negative (antisymmetric: directionality)"
@@ -598,9 +611,11 @@ def r06_4_matrix_fills(ctx, rule: str = 'R06.4') -> List[Ob]:
                     obs.append(violation(rule, t2, f.loc(stores[1]), key=f"{fn}::{mname}::mirror-value",
                                          detail=f"[{a},{b}] = {ast.unparse(v0)}; [{b},{a}] = {ast.unparse(v1)}"))
                 # the value is the pair function evaluated on (train a, train b) in this order
-                for st in loop.body:
-                    if isinstance(st, ast.Assign) and isinstance(st.targets[0], ast.Name) and isinstance(v0, ast.Name) and \
-                            st.targets[0].id == v0.id and isinstance(st.value, ast.Call) and len(st.value.args) >= 2:
+                direct = [stores[ij.index(f"({a}, {b})")]] if isinstance(v0, ast.Call) and len(v0.args) >= 2 else []
+                for st in list(loop.body) + direct:
+                    if isinstance(st, ast.Assign) and ((isinstance(st.targets[0], ast.Name) and isinstance(v0, ast.Name) and
+                                                        st.targets[0].id == v0.id) or st in direct) \
+                            and isinstance(st.value, ast.Call) and len(st.value.args) >= 2:
                         a0, a1 = ast.unparse(st.value.args[0]), ast.unparse(st.value.args[1])
                         t3 = f"{f.name}: entry `[{a}, {b}]` is the pair function applied to (train {a}, train {b}) in that order"
                         if (f"[{a}]" in a0 and f"[{b}]" in a1) and not (f"[{b}]" in a0):
